@@ -98,6 +98,9 @@ func containerSize(children []Box) uint64 {
 func DecodeContainerChildren(hdr BoxHeader, startPos, endPos uint64, r io.Reader) ([]Box, error) {
 	children := make([]Box, 0, 8)
 	pos := startPos
+	if pos == endPos { // Empty container. Must not read into the next box.
+		return children, nil
+	}
 	for {
 		child, err := DecodeBox(pos, r)
 		if err == io.EOF {
